@@ -157,9 +157,15 @@ pub trait BlsSignatureProof:
         use crate::verif_hooks::SystemTime;
         if let Some(tt) = timeout_ms {
             let now = SystemTime::now();
-            let since = UNIX_EPOCH + Duration::from_millis(t);
-            let elapsed = now.duration_since(since).unwrap().as_millis() as u64;
-            if elapsed > tt {
+            // a timestamp that cannot be represented or that lies in the future is not a valid proof
+            let since = UNIX_EPOCH
+                .checked_add(Duration::from_millis(t))
+                .ok_or(BlsError::InvalidProof)?;
+            let elapsed = now
+                .duration_since(since)
+                .map_err(|_| BlsError::InvalidProof)?
+                .as_millis();
+            if elapsed > tt as u128 {
                 return Err(BlsError::InvalidProof);
             }
         }
